@@ -90,6 +90,18 @@ Inductive expr :=
 | EAppend (e x : expr)              (* append(e, x) *)
 | EMake (ty : string) (n : expr)    (* make(T, 0, n) *)
 | EPerm (e : expr)                  (* math/rand.Perm(e): oracle *)
+| EBool (b : bool)                  (* true / false *)
+| ENil                              (* nil *)
+| ENot (e : expr)                   (* !e *)
+| EIsNil (x : string)               (* x == nil, x the receiver "r" or a pointer field path "r.f" (heap place) *)
+| EDeref (x : string) (fs : list string)  (* *x, x a heap place pointing to a struct with fields fs: its value now *)
+| EErr (s : string)                 (* errors.New("s") *)
+| EOpaque (s : string)              (* call of an opaque pure callee (source text s): a fixed unknown value *)
+| EExtern (f : string) (args : list expr) (* external call: recorded as an effect, result = oracle value *)
+| EStr (s : list N)                 (* string constant *)
+| EPrim (p : string) (args : list expr)   (* interpreted primitive, e.g. "strings.Split" (GoLite.prim_eval) *)
+| ETuple (l : list expr)            (* the operands of a multi-value return *)
+| ENew (fs : list (string * expr))  (* &T{...}: a fresh object, every field of T with its initial value *)
 | EUnsupported (s : string).
 
 Inductive stmt :=
@@ -100,10 +112,13 @@ Inductive stmt :=
 | SWhile (c : expr) (b : list stmt)            (* for c { b } *)
 | SRange (x : string) (e : expr) (b : list stmt)  (* for _, x := range e { b } *)
 | SRet (e : option expr)
-| SCallM (f : string)                          (* r.f() : another translated method, same receiver *)
+| SAddTo (x : string) (w : Z) (e : expr)        (* x += e on a signed integer of w bits *)
+| SCallM (f : string) (args : list expr)       (* r.f(args) : another translated method, same receiver *)
+| SRetCallM (f : string) (args : list expr)    (* return r.f(args) / return f(args) *)
+| SCallOn (x f : string) (args : list expr)    (* x.f(args): x a local holding a fresh object, f a translated method *)
 | SLock (m : string)
 | SUnlock (m : string)
 | SDeferUnlock (m : string)
 | SUnsupported (s : string).
 
-Record gfun := mkGfun { gf_recv : string; gf_body : list stmt }.
+Record gfun := mkGfun { gf_recv : string; gf_params : list string; gf_body : list stmt }.
